@@ -12,6 +12,7 @@ def tokenize (s : String) : List String :=
 def parseBOp : String → Option BOp
   | "Add" => some .add | "Sub" => some .sub | "Mul" => some .mul | "Mod0" => some .mod0
   | "Equal" => some .equal | "Less" => some .less | "And" => some .and | "Or" => some .or | "Xor" => some .xor
+  | "Greater" => some .greater | "LessOrEqual" => some .lessEq | "GreaterOrEqual" => some .greaterEq
   | _ => none
 
 mutual
